@@ -45,7 +45,7 @@ func (c *Ctx) adnlLayouts() {
 	if f := c.mustFn(R, "liteclient", "Packet.marshal"); f != nil {
 		first := byteField{"", "4", "copy", "size"}
 		if sizeFn == nil {
-			first = byteField{"", "4", "LE32", "+32)+32)"}
+			first = byteField{"", "4", "LE32", "=(64+len("}
 		}
 		c.layoutIs(R, "Packet.marshal = size4 | nonce32 | payload | hash32", f, c.byteWrites(f), []byteField{
 			first, {"4", "36", "copy", "nonce"}, {"36", "(36+len(*_.Payload))", "copy", "Payload"}, {"(36+len(*_.Payload))", "", "copy", "hash"},
@@ -56,27 +56,55 @@ func (c *Ctx) adnlLayouts() {
 	}
 	if f := sizeFn; f != nil {
 		ws := c.byteWrites(f)
-		okv := len(ws) == 1 && ws[0].how == "LE32" && strings.Contains(ws[0].what, "+32)+32)")
+		okv := len(ws) == 1 && ws[0].how == "LE32" && strings.Contains(ws[0].what, "=(64+len(")
 		c.check(okv, R, "Packet.size = LE32(len(payload)+64)", f.Pos(), "little-endian 32-bit length of nonce+payload+checksum", "Packet.size no longer encodes len(payload)+32+32 as a little-endian 32-bit word: "+fieldsString(ws))
 	}
 	// ParsePacket reads: nonce = data[:32], payload = data[32:length-32], checksum = data[length-32:]
 	if f := c.mustFn(R, "liteclient", "ParsePacket"); f != nil {
 		var sl []string
+		type cut struct {
+			lo, hi       offLin
+			hasLo, hasHi bool
+		}
+		var cuts []cut
 		allInstrs(f, func(_ *ssa.BasicBlock, in ssa.Instruction) {
 			if s, ok := in.(*ssa.Slice); ok {
-				if mk, ok := s.X.(*ssa.MakeSlice); ok {
-					_ = mk
+				if _, ok := s.X.(*ssa.MakeSlice); ok {
 					sl = append(sl, "["+offShape(s.Low)+":"+offShape(s.High)+"]")
+					cuts = append(cuts, cut{linOff(s.Low), linOff(s.High), s.Low != nil, s.High != nil})
 				}
 			}
 		})
 		sort.Strings(sl)
 		got := strings.Join(sl, " ")
+		// the three cuts as linear forms: [:32], [32:n-32], [n-32:] with the same n (one term, coefficient 1)
 		okSplit := false
-		if len(sl) == 3 && sl[2] == "[:32]" && strings.HasPrefix(sl[1], "[32:(") && strings.HasSuffix(sl[1], "-32)]") && strings.HasSuffix(sl[0], "-32):]") {
-			x1 := strings.TrimSuffix(strings.TrimPrefix(sl[1], "[32:("), "-32)]")
-			x0 := strings.TrimSuffix(strings.TrimPrefix(sl[0], "[("), "-32):]")
-			okSplit = x0 == x1
+		if len(cuts) == 3 {
+			isK := func(o offLin, k int64) bool { return o.isConst() && o.k == k }
+			endAtom := func(o offLin) string {
+				if o.k != -32 || len(o.atoms) != 1 {
+					return ""
+				}
+				for a, co := range o.atoms {
+					if co == 1 {
+						return a
+					}
+				}
+				return ""
+			}
+			var nonce, payload, sum *cut
+			for i := range cuts {
+				cu := &cuts[i]
+				switch {
+				case (!cu.hasLo || isK(cu.lo, 0)) && cu.hasHi && isK(cu.hi, 32):
+					nonce = cu
+				case cu.hasLo && isK(cu.lo, 32) && cu.hasHi && endAtom(cu.hi) != "":
+					payload = cu
+				case cu.hasLo && endAtom(cu.lo) != "" && !cu.hasHi:
+					sum = cu
+				}
+			}
+			okSplit = nonce != nil && payload != nil && sum != nil && endAtom(payload.hi) == endAtom(sum.lo)
 		}
 		c.check(okSplit, R,
 			"ParsePacket splits nonce[0:32] | payload[32:n-32] | checksum[n-32:]", f.Pos(), got, "ParsePacket slices the decrypted frame as "+got+"; the frame is nonce[0:32] payload[32:n-32] checksum[n-32:n]")
@@ -131,12 +159,20 @@ func (c *Ctx) adnlLayouts() {
 			if !ok {
 				continue
 			}
-			if b, ok := cl.Call.Value.(*ssa.Builtin); !ok || b.Name() != "append" {
+			b, ok := cl.Call.Value.(*ssa.Builtin)
+			if !ok || (b.Name() != "append" && b.Name() != "copy") {
 				continue
 			}
+			// key = append(shared[:16], hash[16:32]...) or  copy(key[:16], shared[:16]); copy(key[16:], hash[16:32])
+			// (both forms list the pieces in buffer order when written in the natural order)
 			s, ok := cl.Call.Args[1].(*ssa.Slice)
 			if !ok {
 				continue
+			}
+			if b.Name() == "copy" {
+				if d, isS := cl.Call.Args[0].(*ssa.Slice); !isS || !isMakeSliceBase(d) {
+					continue
+				}
 			}
 			what := ""
 			switch {
@@ -653,4 +689,17 @@ func (c *Ctx) liteKeyFields() (pub, shared string) {
 		}
 	})
 	return
+}
+
+// isMakeSliceBase: the slice expression cuts a buffer made by make([]byte, K) (directly or through the whole-buffer slice).
+func isMakeSliceBase(d *ssa.Slice) bool {
+	base := d.X
+	if inner, ok := base.(*ssa.Slice); ok {
+		base = inner.X
+	}
+	if al, ok := base.(*ssa.Alloc); ok && al.Comment == "makeslice" {
+		return true
+	}
+	_, isMk := base.(*ssa.MakeSlice)
+	return isMk
 }
